@@ -35,7 +35,7 @@ func init() {
 		Run:          Run,
 		MaxSteps:     400000,
 		YieldFiles:   []string{"ss2022/stream.go", "ss2022/tcp.go"},
-		QuickRuns:    6000,
+		QuickRuns:    10000,
 		ThoroughSecs: 600,
 		Rule: "one run = one configuration (cipher, single/multi-user, prefixes, segmented-header allowance, fallback address, held or foreign client key, target, initial payload, " +
 			"write scripts and read paths of both sides) and one or two tamper operators (bit flip, cut+FIN, drop, duplicate, swap, splice with a recorded second session under the same or a " +
@@ -47,7 +47,7 @@ func init() {
 		Assumptions: []string{
 			"every ss2022 write is one Write on the inner connection (the harness reports an error otherwise), so write boundaries give the ciphertext structure",
 			"a stream that the attacker ends exactly on an AEAD chunk boundary may end with io.EOF (the protocol has no close marker); any other alteration must end the receiver's stream with a non-EOF error",
-			"the attacker does not replay a complete recorded request to a server that never saw it (that is C03's subject): request-direction splices start after the genuine salt",
+			"a donor session under the same key is recorded against the server instance under test, so a complete replay of its request is a repeated salt there (replay across servers is outside this property)",
 			"when segmented headers are not allowed the transport delivers the first fixed-length flight in one read",
 		},
 		ExpectProbes: []string{"c02.end.error-after-clean-prefix", "c02.end.eof-at-boundary-cut", "c02.server.handshake-refused", "c02.server.request-from-clean-handshake",
@@ -305,7 +305,7 @@ func unitsOf(script []int) (u int) {
 
 // record runs a clean second session (client B <-> server B, no attacker) and returns its
 // recorded ciphertext with structure.
-func record(s *simrt.Sim, w *simnet.World, cfg *config, k *keys, srvHost, cliHost *simnet.Host, port uint16) *session {
+func record(s *simrt.Sim, w *simnet.World, cfg *config, k *keys, srv *ss2022.StreamServer, srvHost, cliHost *simnet.Host, port uint16) *session {
 	target := util.TargetAddr(s)
 	pLen := util.Pick(s, []int{0, 1, 300, 1000})
 	b := newSession(s, cfg, "B", 3, 4, target, pLen)
@@ -326,7 +326,7 @@ func record(s *simrt.Sim, w *simnet.World, cfg *config, k *keys, srvHost, cliHos
 			raw.MinFirstRead = cfg.srvFirst
 		}
 		raw.Tap = b.s2c.tap
-		req, err := k.server().HandleStream(raw, util.Logger())
+		req, err := srv.HandleStream(raw, util.Logger())
 		if err != nil {
 			s.Fail("c02.error{donor-session}", "clean second session: HandleStream: %v", err)
 			return
@@ -471,10 +471,6 @@ func Run(s *simrt.Sim) {
 	if len(sScript) == 0 {
 		estS = 0
 	}
-	saltIdxC := 0
-	if len(cfg.reqPrefix) > 0 {
-		saltIdxC = 1
-	}
 	nOps := 1 + s.Choose(2)
 	if foreign && s.GenChance(128) {
 		nOps = 0
@@ -508,15 +504,18 @@ func Run(s *simrt.Sim) {
 		o.bit = s.Choose(8)
 		if o.kind == "splice" || o.kind == "respswap" {
 			if donor == nil {
-				kb := ka
+				// A donor under the same key is recorded against the very server instance under test, so
+				// that a complete replay of its request is a repeated salt for that server.
+				kb, srvB := ka, srvA
 				donorKeys = "same"
 				if s.GenChance(96) {
 					donorKeys = "other"
 					if kb = newKeys(s, cfg, nil); kb == nil {
 						return
 					}
+					srvB = kb.server()
 				}
-				donor = record(s, w, cfg, kb, srvHost, cliHost, 8400)
+				donor = record(s, w, cfg, kb, srvB, srvHost, cliHost, 8400)
 				if s.Failed() {
 					return
 				}
@@ -530,9 +529,6 @@ func Run(s *simrt.Sim) {
 			case o.kind == "respswap":
 				o.target, o.from = 0, 0
 			default:
-				if o.dir == "c2s" && o.target <= saltIdxC {
-					o.target = saltIdxC + 1
-				}
 				switch s.Choose(3) {
 				case 0:
 					o.from = min(o.target, len(o.donor.elems)-1)
@@ -721,6 +717,12 @@ func Run(s *simrt.Sim) {
 		s.Probe("c02.foreign-key")
 	}
 	s.Logf("verdict c2s cp=%d equal=%v trunc=%v max=%d; s2c cp=%d equal=%v trunc=%v max=%d", vc.cp, vc.equal, vc.truncated, vc.maxPlain, vs.cp, vs.equal, vs.truncated, vs.maxPlain)
+
+	if donor != nil {
+		if e := donor.c2s.endOf("var"); e > 0 && len(A.c2s.D) >= e && commonPrefix(A.c2s.D, donor.c2s.O) >= e {
+			s.Probe("c02.donor-request-replayed{" + donorKeys + "-key}")
+		}
+	}
 
 	// 1. the server's handshake
 	varEnd := A.c2s.endOf("var")
